@@ -12,7 +12,10 @@ CHECKS = {
             'window model oracle, link-following traversal',
             'Every (length,start,end,size,orphan,overlap) of the stated grid is rendered by the real '
             'engine and compared with an independent window model; traversal laws are checked by '
-            'following the links the engine printed. Exhaustive inside the grid, sampled beyond.',
+            'following the links the engine printed. Exhaustive inside the grid, sampled beyond. The previous / next '
+            'attribute forms are compared with the plain rendering; 20 long-lived compiled variants are re-rendered '
+            'with text- and callable-valued parameters, prefix spellings, sparse / edge / nested body layouts, four '
+            'sequence forms and five item kinds.',
             'Trusted: the window model in checks/c11.py (from the DT_In docstring and the statement); '
             'CPython; parameters <= 0 mean "not given".',
             'DESIGN.md section 4, C11'),
@@ -22,8 +25,10 @@ CHECKS = {
             'Two or three threads render one shared template object under schedules we control at '
             'package-statement granularity: every single-preemption schedule (thorough; quick: first/last '
             'occurrence of every site plus every 16th step), 2-preemption schedules over de-duplicated sites, '
-            'random 3-thread schedules; pre-cooked and uncooked (compile race). Each thread must get exactly '
-            'what it gets alone.',
+            'random 3-thread schedules; pre-cooked, uncooked (compile race), already-rendered and restored variants; '
+            'file-based templates with deep compile-race schedules (3 threads x 2 preemptions, 2 x 3, 2 x 4) at the '
+            'accesses of the shared object; per-thread functions; same-place schedules; all orders of 3 threads. Each '
+            'thread must get exactly what it gets alone.',
             'Trusted: vlib/sched.py; statement-line granularity (races inside one line or inside C / '
             'third-party code are invisible); CPython 3.12 GIL semantics.',
             'DESIGN.md section 4, C18'),
@@ -33,7 +38,8 @@ CHECKS = {
             'The real dtml-var is rendered for all 4096 modifier subsets, all written orders of small subsets, '
             'fmt / C-format / size x etc / null / missing grids and seeded random option sets over str, bytes, '
             'numbers, None, empty containers and objects; each stage application is logged by wrappers and the '
-            'output compared with an independent model of the documented pipeline.',
+            'output compared with an independent model of the documented pipeline; option count 0/1/2 x 26 C formats '
+            'x 12 tag spellings, the numeric tower and every null kind for null= / missing=.',
             'Trusted: vlib/c15_util.py pipeline model (from the DT_Var docstring and the statement); html_quote '
             'exactness is C03\'s; thousands_commas judged on numeric text only.',
             'DESIGN.md section 4, C15'),
